@@ -218,6 +218,7 @@ def build_pkgo(sc, sid):
                 "methCallHidden": "_ = %sDefault.HM(%d)" % (q, n),
                 "methCallS2": "_ = z%d.PM(%d)" % (n, n),
                 "chainCall": "_ = %sNewPS().PSM(%d)" % (q, n),
+                "aliasPlain": "var v%d Hdr" % n,
                 "typeVarHidden": "var v%d %sState" % (n, q),
                 "methCallPromoted": "_ = e%d.PM(%d)" % (n, n),
                 "methValuePromoted": "f%d := e%d.PM" % (n, n),
@@ -229,7 +230,7 @@ def build_pkgo(sc, sid):
             }[r]
             if r in ("funcValue", "methValue", "methValuePromoted"):
                 post = ["_ = f%d" % n]
-            if r in ("typeVar", "typeVarHidden"):
+            if r in ("typeVar", "typeVarHidden", "aliasPlain"):
                 post = ["_ = v%d" % n]
             out.tagged(key, stmt)
             for l in post:
@@ -244,6 +245,9 @@ def build_pkgo(sc, sid):
     # an alias declaration is itself a reference to d.PT from the declaring package (chains: every link is)
     ALIAS_DECLS = [("TA", "type TA = %sPT", {"alias", "chain", "alias3", "chain3"}), ("TA2", "type TA2 = TA", {"chain", "chain3"}),
                    ("TP", "type TP = *%sPT", {"ptralias", "ptrchain", "ptralias3", "ptrchain3"}), ("TH", "type TH = TP", {"ptrchain", "ptrchain3"})]
+    if any(r0.partition("@")[0] == "aliasPlain" for refs0 in sc["files"] for r0 in refs0):
+        h.add("// Hdr, ID and PP are aliases of types that are not defined types.", "type Hdr = map[string][]string", "", "type ID = string", "",
+              "type PP = *struct{ A int }", "")
     for name, decl, when in ALIAS_DECLS:
         if spells & {w for w in when if not w.endswith("3")}:
             h.tagged("aliasdecl_" + name, decl % q if "%s" in decl else decl, "")
